@@ -113,10 +113,19 @@ func BlockCond(b *cfg.Block) ast.Expr {
 	switch b.Succs[0].Kind {
 	case cfg.KindIfThen, cfg.KindForBody:
 		return e
+	case cfg.KindSwitchCaseBody:
+		// tagless switch: the case expression is a real boolean condition (Succs[0] is the case body, Succs[1] the
+		// next case); for a tagged switch the node is only the value compared with the tag and says nothing
+		if cc, ok := b.Succs[0].Stmt.(*ast.CaseClause); ok && TaglessCases[cc] {
+			return e
+		}
 	}
 	// if without else: Succs[1] is IfDone; Succs[0] is IfThen (handled above).
 	return nil
 }
+
+// TaglessCases marks the case clauses of switch statements without a tag (filled when a function's CFG is built).
+var TaglessCases = map[*ast.CaseClause]bool{}
 
 // Conjuncts splits e into the operands of && (if want is true) or of || (if want is false),
 // i.e. the atoms that are all known to have truth value `want` when e evaluates to `want`.
